@@ -633,12 +633,16 @@ class SymInt:
         return mk(z3.If(self.e >= 0, self.e, -self.e))
 
     def __format__(self, spec):
-        return "<sym>"
+        # the text of a symbolic integer is an opaque atom (see AtomStr); format specs are not modelled
+        if spec not in ("", "d"):
+            raise EngineError(f"format spec {spec!r} on a symbolic integer")
+        return AtomStr(self)
 
     def __repr__(self):
         return "<sym>"
 
-    __str__ = __repr__
+    def __str__(self):
+        return AtomStr(self)
 
 
 def _div_guard(d):
@@ -1450,6 +1454,21 @@ class NPShim:
     def sin(self, x): return self._uf("sin", x)
     def cos(self, x): return self._uf("cos", x)
 
+    def nditer(self, a):
+        if isinstance(a, SymArray):
+            return iter(a.cells_list())
+        return self._np.nditer(a)
+
+    def fromstring(self, text, dtype=None, sep=" "):
+        """np.fromstring(text, dtype, sep): token split; atom tokens map back to their integers"""
+        toks = [t for t in text.split(sep)] if sep.strip() else text.split()
+        vals = [atom_of(t) for t in toks if t.strip() != ""]
+        dt = dtype if isinstance(dtype, DType) else (dtype_of(dtype) if dtype is not None else INT64)
+        out = SymArray([0] * len(vals), (len(vals),), name="fromstring", dtype=dt)
+        src = SymArray(vals, (len(vals),), name="tokens", dtype=INT64)
+        self.copyto(out, src, casting="unsafe")
+        return out
+
     def fill_diagonal(self, a, val):
         if not isinstance(a, SymArray):
             return self._np.fill_diagonal(a, val)
@@ -1517,3 +1536,22 @@ class _StrMeta(type):
 
 class _StrShadow(metaclass=_StrMeta):
     pass
+
+
+def ctor_shadow(real_cls, factory):
+    """stands in for a class name inside transformed code: isinstance(x, Name) still refers to the real class,
+    Name(...) calls `factory` (a symbolic run of the real constructor)"""
+    class _Meta(type):
+        def __instancecheck__(cls, obj):
+            return isinstance(obj, real_cls)
+
+        def __call__(cls, *a, **k):
+            return factory(*a, **k)
+
+        def __getattr__(cls, name):
+            return getattr(real_cls, name)
+
+    class Shadow(metaclass=_Meta):
+        pass
+    Shadow.__name__ = real_cls.__name__
+    return Shadow
